@@ -71,6 +71,7 @@ type Run struct {
 	prop    string
 	sitesHit map[string]bool
 	needs   map[string]bool
+	dynFn   *Val
 	kindOrd map[string]map[ssa.Instruction]int
 }
 
